@@ -485,6 +485,8 @@ def mon_rx_path(case, obs):
                         mode_ptr[ch] = 0
                     if x == 2:
                         lossy[ch] = True
+                    if x == 4:
+                        lossy[ch] = True      # reset-error may clear an overrun flag that was raised: no exact accounting
             last_status[ch] = None if not (k[0] == 'r' and off == 0x07) else last_status[ch]
         if k not in ('rb',):
             pass
